@@ -278,6 +278,9 @@ def rule_normaliser(ctx: Ctx) -> None:
             if mixed:
                 rows["flat-mixed"] += 1
                 ctx.check(raised, "C15-normaliser", name, "flat-mixed", "a flat list with non-numeric entries is not rejected", fi=fi)
+            elif mixed is None and not raised:
+                rows["flat"] += 1
+                ctx.violate("C15-normaliser", name, "flat-unchecked", f"a flat list is accepted as `{rv[:100]}` on [{p.cond_text()[:140]}] without checking that every entry is numeric (non-numeric entries must be rejected)", fi=fi)
             else:
                 rows["flat"] += 1
                 ok = rv == "[[t]*num_elementsfortinthreshold]iflen(threshold)!=num_elementselse[threshold]" or rv in ("[[t]*num_elementsfortinthreshold]", "[threshold]")
